@@ -551,11 +551,13 @@ func r161(c *an.Ctx) {
 			xn, yn := l.Get("x==nil"), l.Get("y==nil")
 			if xn == "true" || yn == "true" {
 				want := xn == "true" && yn == "true"
-				got, okb := evalBool(l.Returns[0].S, map[string]bool{"x==nil": xn == "true", "y==nil": yn == "true"})
+				// (with one side nil, `x == y` on the two interfaces is true exactly when the other is nil too)
+				both := xn == "true" && yn == "true"
+				got, okb := evalBool(l.Returns[0].S, map[string]bool{"x==nil": xn == "true", "y==nil": yn == "true", "x==y": both, "y==x": both})
 				if yn == "" {
 					// x nil, y unknown: result must be `y == nil`
-					g1, ok1 := evalBool(l.Returns[0].S, map[string]bool{"x==nil": true, "y==nil": true})
-					g2, ok2 := evalBool(l.Returns[0].S, map[string]bool{"x==nil": true, "y==nil": false})
+					g1, ok1 := evalBool(l.Returns[0].S, map[string]bool{"x==nil": true, "y==nil": true, "x==y": true, "y==x": true})
+					g2, ok2 := evalBool(l.Returns[0].S, map[string]bool{"x==nil": true, "y==nil": false, "x==y": false, "y==x": false})
 					if !ok1 || !ok2 || !g1 || g2 {
 						ok = false
 					}
